@@ -450,7 +450,7 @@ pub fn run_expiry(ctx: &mut Ctx, mode: Mode) {
     let kmax: u64 = t.pick(1500, 5000);
     let deep_n = t.pick(4usize, 40usize);
     let deep_max = t.pick(20_000u32, 60_000u32);
-    let cases = t.pick(160, 640);
+    let cases = t.pick(256, 768);
     // twice as many runners as cores: the cost per case is heavy-tailed
     let saved_workers = ctx.workers;
     ctx.workers = saved_workers * 2;
@@ -481,6 +481,41 @@ pub fn run_expiry(ctx: &mut Ctx, mode: Mode) {
         },
     );
     ctx.workers = saved_workers;
+    if mode == Mode::C07 {
+        // Small trees searched very deep: endgames in which the side to move can repeat a position
+        // (every other line is cut at once), so that within a few thousand consultations the
+        // iterative deepening passes depth 40-99 and lines run to ply 100 and beyond (check
+        // extensions, null-move ply offset). Few expiry points, far horizon.
+        let horizon = t.pick(40_000u64, 150_000u64);
+        run_prop(
+            ctx,
+            "deep_iterations_on_repetition_endgames",
+            || {
+                (proptest::sample::select(vec![23usize, 24, 27, 30, 31, 32, 37, 33, 22, 25]).prop_map(Start::Corpus), proptest::collection::vec(any::<u16>(), 0..14), 2u8..5, any::<u16>(), any::<u16>(), 0u8..4, proptest::collection::vec(0u32..40_000, 3..=3))
+                    .prop_map(|(start, choices, cycles, c1, c2, tail_cut, deep)| ExpiryRecipe { game: RepRecipe { walk: WalkRecipe { start, choices }, cycles, c1, c2, tail_cut }, deep })
+            },
+            t.pick(400, 3_000),
+            move |r, st| {
+                let Some((start, moves)) = rep_moves(&r.game) else { return Ok(()) };
+                let Ok(case) = make_case(&start, &moves) else { return Ok(()) };
+                if case.root.legal_moves().is_empty() {
+                    return Ok(());
+                }
+                st.sample(|| case_json(&start, &moves));
+                let mut deep: Vec<u64> = r.deep.iter().map(|&d| d as u64).collect();
+                deep.push(horizon);
+                expiry_case(&case, 60, &deep, mode, st)
+            },
+            move |r| {
+                let mut v = rep_json(&r.game);
+                v["kmax"] = json!(60);
+                let mut deep: Vec<u64> = r.deep.iter().map(|&d| d as u64).collect();
+                deep.push(horizon);
+                v["deep"] = json!(deep);
+                v
+            },
+        );
+    }
 }
 
 pub fn replay_expiry(case: &Value, mode: Mode) -> CaseResult {
